@@ -307,7 +307,8 @@ theorem exRaw_dec : decProtectedContent [0xa1, 0x01, 0x38, 0x22] = .ok [(lbl 1, 
     maxNested, maxElems, labelsOK, maxInt64, GoVal.keyEq, decodePairs, decodeAny, keyHashable,
     validateHeaderParameters, validateLoop, normalizeLabel, wrap64, checkParam, castAlg, algorithmOf,
     lookupLabel, GoMap.lookup, lbl, GoMap.set, GoMap.has, bind, Out.bind, canInt, canTstr,
-    IntKind.signed]
+    IntKind.signed, Wire.stripSelfDescribed,
+    (by decide : headerLabelsUntagged [0xa1, 0x01, 0x38, 0x22] = true)]
 
 /-- WHY `hrp : m.h.rawP = none` IN `signed_bytes_carry_alg`: go-cose does not re-check retained
     raw protected bytes against the typed map when signing.  For `exRawMismatch` the ES256 signer
